@@ -12,6 +12,7 @@ def run(ck):
                         '--test vs runtime agreement']
     loaders.run_all(ck)
     loaders.spec_configured_address(ck)
+    loaders.spec_metrics_config(ck)
     loadbalance.spec_lb_verify(ck)
     loadbalance.spec_lb_init(ck)
     loadbalance.spec_lb_member_graph(ck)
